@@ -1,4 +1,4 @@
-import UralModel.Model.Facebook
+import UralModel.Model.FacebookScope
 import UralModel.Lemmas.Str
 import UralModel.Lemmas.StrSplit20
 /-!
